@@ -115,6 +115,9 @@ type world struct {
 	startCh  chan struct{}
 	hung     bool
 	hungAt   string
+	alloc    *allocator.Allocator
+	stalled  bool   // the loop is parked in a memory reservation (peer allowance filled by the harness)
+	ballast  uint64 // what the harness holds of the peer's allowance
 }
 
 type rlConn struct{ w *world }
@@ -302,6 +305,12 @@ func give[T any](w *world, what string, ch chan T, v T) bool {
 	}
 }
 
+func (w *world) isStalled() bool {
+	w.mu.Lock()
+	defer w.mu.Unlock()
+	return w.stalled
+}
+
 func (w *world) note(k string) {
 	w.mu.Lock()
 	w.ev[k]++
@@ -347,6 +356,8 @@ const (
 	fnHold    = "main.rlExec.ExecuteTask"
 	fnFin     = "main.rlMgr.FinishTask"
 	fnStart   = "main.rlMgr.StartTask"
+	fnAlloc   = "github.com/ipfs/go-graphsync/messagequeue.(*MessageQueue).AllocateAndBuildMessage"
+	peerLimit = uint64(1 << 20) // per-peer memory allowance of the real allocator
 	waitLimit = 8 * time.Second
 )
 
@@ -400,6 +411,8 @@ func (w *world) settle() {
 			switch {
 			case g.state == "select" && strings.HasPrefix(g.first, fnRun):
 				sawLoop = true
+			case g.state == "select" && strings.HasPrefix(g.first, fnAlloc) && strings.Contains(g.body, fnRun) && w.isStalled():
+				sawLoop = true // the loop is parked in the reservation the script made it wait for
 			case g.state == "select" && strings.HasPrefix(g.first, fnWorker):
 				sawWorker = true
 				if w.tq.Stats().Pending > 0 {
@@ -457,7 +470,8 @@ func ext(name string) graphsync.ExtensionData {
 var labelTerm = map[string]string{
 	"new/accept": "LNew HAccept", "new/reject": "LNew HReject", "new/pause": "LNew HPause", "new/hookerr": "LNew HErr",
 	"rcancel/": "LReqCancel", "rupdate/ok": "LReqUpdate UOk", "rupdate/ext": "LReqUpdate UExt", "rupdate/err": "LReqUpdate UErr",
-	"rupdate/unpause": "LReqUpdate UUnpause", "apause/": "LApiPause", "aunpause/": "LApiUnpause", "acancel/": "LApiCancel",
+	"rupdate/unpause": "LReqUpdate UUnpause", "rupdate/exterr": "LReqUpdate UExtErr",
+	"updstall/ext": "LUpdStall UExt", "updstall/exterr": "LUpdStall UExtErr", "memfree/": "LMemFree", "apause/": "LApiPause", "aunpause/": "LApiUnpause", "acancel/": "LApiCancel",
 	"aupdate/": "LApiUpdate", "gate/cont": "LGate GCont", "gate/pause": "LGate GPause", "gate/err": "LGate GErr",
 	"gateh/cont": "LGateHold GCont", "gateh/pause": "LGateHold GPause", "gateh/err": "LGateHold GErr", "finish/": "LFinish", "armstart/": "LArmStart", "start/": "LStart",
 	"send/ok": "LSend true", "send/fail": "LSend false", "hold/": "LHold", "release/": "LRelease",
@@ -482,7 +496,8 @@ func runCase(c rlCase) (steps []string, finalEntry bool, hung bool, why string) 
 		}
 		return bytes.NewBuffer(append([]byte(nil), d...)), nil
 	}
-	alloc := allocator.NewAllocator(1<<40, 1<<40)
+	alloc := allocator.NewAllocator(1<<40, peerLimit)
+	w.alloc = alloc
 	var nets []*rlNet
 	w.pmm = peermanager.NewMessageManager(ctx, func(ctx context.Context, p peer.ID, onShutdown func(peer.ID)) peermanager.PeerQueue {
 		n := &rlNet{w}
@@ -519,6 +534,10 @@ func runCase(c rlCase) (steps []string, finalEntry bool, hung bool, why string) 
 		if _, ok := u.Extension("verif/err"); ok {
 			ha.TerminateWithError(errors.New("update hook error"))
 		}
+		if _, ok := u.Extension("verif/exterr"); ok {
+			ha.SendExtensionData(ext("verif/reply"))
+			ha.TerminateWithError(errors.New("update not acceptable"))
+		}
 		if _, ok := u.Extension("verif/unpause"); ok {
 			ha.UnpauseResponse()
 		}
@@ -540,9 +559,12 @@ func runCase(c rlCase) (steps []string, finalEntry bool, hung bool, why string) 
 	w.settle()
 
 	seen, held := false, false
-	lastTq := uint64(0)
+	lastTq, lastSt := uint64(0), uint64(0)
 	for _, l := range c.Labels {
 		ret := uint64(0)
+		if w.isStalled() && !(l.K == "memfree" || (l.K == "send" && l.A == "fail")) {
+			continue // the loop is parked: nothing else is issued until the reservation is resolved
+		}
 		w.mu.Lock()
 		atGate, infl, inFin, inStart := w.atGate, w.infl, w.inFin, w.inStart
 		w.mu.Unlock()
@@ -599,9 +621,44 @@ func runCase(c rlCase) (steps []string, finalEntry bool, hung bool, why string) 
 				continue
 			}
 			give(w, "the StartTask gate", w.startCh, struct{}{})
+		case "updstall":
+			// the peer's allowance is filled by the harness, then an update whose hook result needs memory
+			// arrives for the paused response: the loop parks in that transaction's reservation
+			used := w.alloc.AllocatedForPeer(w.p)
+			if lastSt != 3 || infl == nil || used == 0 || used >= peerLimit {
+				continue
+			}
+			w.mu.Lock()
+			w.ballast = peerLimit - used
+			w.stalled = true
+			w.mu.Unlock()
+			<-w.alloc.AllocateBlockMemory(w.p, w.ballast)
+			w.bounded("ProcessRequests", func() {
+				w.rm.ProcessRequests(ctx, w.p, []gsmsg.GraphSyncRequest{gsmsg.NewUpdateRequest(w.rid, ext("verif/"+l.A))})
+			})
+		case "memfree":
+			if !w.isStalled() {
+				continue
+			}
+			w.mu.Lock()
+			w.stalled = false
+			b := w.ballast
+			w.ballast = 0
+			w.mu.Unlock()
+			_ = w.alloc.ReleaseBlockMemory(w.p, b)
 		case "send":
 			if infl == nil {
 				continue
+			}
+			if w.isStalled() {
+				// the write fails but the peer stays connected (retries expended): the queue lives on, the
+				// scrub returns memory and the parked reservation is granted
+				w.mu.Lock()
+				w.infl = nil
+				w.stalled = false
+				w.mu.Unlock()
+				give(w, "the SendMsg outcome", w.release, false)
+				break
 			}
 			w.mu.Lock()
 			w.infl = nil
@@ -646,13 +703,36 @@ func runCase(c rlCase) (steps []string, finalEntry bool, hung bool, why string) 
 			// observed reliably any more
 			break
 		}
+		w.mu.Lock()
+		if !w.stalled && w.ballast > 0 {
+			b := w.ballast
+			w.ballast = 0
+			w.mu.Unlock()
+			_ = w.alloc.ReleaseBlockMemory(w.p, b) // the stall was resolved by the failed send: give the allowance back
+			w.settle()
+		} else {
+			w.mu.Unlock()
+		}
+		stalledNow := w.isStalled()
 		var ps peerstate.PeerState
-		if !w.bounded("PeerState", func() { ps = w.rm.PeerState(w.p) }) {
+		if stalledNow {
+			// the loop cannot answer PeerState while it is parked; it has changed nothing since the last
+			// observation (processUpdate mutates nothing before its transaction)
+			if w.alloc.Stats().TotalPendingAllocations == 0 {
+				w.mu.Lock()
+				w.hung, w.hungAt = true, "the reservation the script made the loop wait for is not pending"
+				w.mu.Unlock()
+				break
+			}
+		} else if !w.bounded("PeerState", func() { ps = w.rm.PeerState(w.p) }) {
 			break
 		}
 		st, tqs := uint64(0), uint64(0)
 		if s, ok := ps.RequestStates[w.rid]; ok {
 			st = uint64(s) + 1
+		}
+		if stalledNow {
+			st, tqs = lastSt, lastTq
 		}
 		for _, t := range ps.TaskQueueState.Pending {
 			if t == w.rid {
@@ -672,8 +752,10 @@ func runCase(c rlCase) (steps []string, finalEntry bool, hung bool, why string) 
 			ex = 50
 		} else if w.inStart {
 			ex = 51
+		} else if w.stalled {
+			ex = 52
 		}
-		lastTq = tqs
+		lastTq, lastSt = tqs, st
 		inflN := uint64(0)
 		if w.infl != nil {
 			inflN = w.infl.status
@@ -737,7 +819,7 @@ var processDirty bool
 
 var (
 	newKinds = []string{"accept", "accept", "accept", "accept", "pause", "reject", "hookerr"}
-	updKinds = []string{"ok", "ext", "err", "unpause"}
+	updKinds = []string{"ok", "ext", "err", "unpause", "exterr"}
 )
 
 func genCase(r *rng.R) rlCase {
@@ -749,8 +831,34 @@ func genCase(r *rng.R) rlCase {
 		// the worker pops the task, its StartTask is held: whatever comes next reaches the loop first
 		c.Labels = append(c.Labels, rlLabel{K: "armstart"})
 	}
+	stallFamily := r.P(1, 6)
 	c.Labels = append(c.Labels, rlLabel{K: "new", A: rng.Pick(r, newKinds)})
+	if stallFamily {
+		// a response paused while its blocks are unsent; the peer's memory allowance runs out; an update whose
+		// hook answers with extension data (and maybe a rejection) waits for memory in the loop; the message
+		// in flight fails (or memory is released otherwise)
+		for i := r.Range(0, c.N-1); i > 0; i-- {
+			c.Labels = append(c.Labels, rlLabel{K: "gate", A: "cont"})
+		}
+		if r.P(1, 3) {
+			c.Labels = append(c.Labels, rlLabel{K: "apause"}, rlLabel{K: "gate", A: "cont"})
+		} else {
+			c.Labels = append(c.Labels, rlLabel{K: "gate", A: "pause"})
+		}
+		if r.P(1, 4) {
+			c.Labels = append(c.Labels, rlLabel{K: "send", A: "ok"})
+		}
+		c.Labels = append(c.Labels, rlLabel{K: "updstall", A: rng.Pick(r, []string{"exterr", "exterr", "ext"})})
+		if r.P(3, 4) {
+			c.Labels = append(c.Labels, rlLabel{K: "send", A: "fail"})
+		} else {
+			c.Labels = append(c.Labels, rlLabel{K: "memfree"})
+		}
+	}
 	n := r.Range(2, 12)
+	if stallFamily {
+		n = r.Range(0, 4)
+	}
 	for i := 0; i < n; i++ {
 		x := r.Intn(100)
 		switch {
@@ -782,15 +890,17 @@ func genCase(r *rng.R) rlCase {
 			c.Labels = append(c.Labels, rlLabel{K: "aunpause"})
 		case x < 86:
 			c.Labels = append(c.Labels, rlLabel{K: "acancel"})
-		case x < 93:
+		case x < 91:
 			c.Labels = append(c.Labels, rlLabel{K: "aupdate"})
-		case x < 92:
-			c.Labels = append(c.Labels, rlLabel{K: "armstart"})
 		case x < 93:
-			c.Labels = append(c.Labels, rlLabel{K: "start"})
+			c.Labels = append(c.Labels, rlLabel{K: "armstart"})
 		case x < 94:
+			c.Labels = append(c.Labels, rlLabel{K: "start"})
+		case x < 95:
 			c.Labels = append(c.Labels, rlLabel{K: "finish"})
-		case x < 97:
+		case x < 96:
+			c.Labels = append(c.Labels, rlLabel{K: "updstall", A: rng.Pick(r, []string{"exterr", "ext"})})
+		case x < 98:
 			c.Labels = append(c.Labels, rlLabel{K: "hold"})
 		default:
 			c.Labels = append(c.Labels, rlLabel{K: "release"})
@@ -799,6 +909,7 @@ func genCase(r *rng.R) rlCase {
 	// drive to quiescence: free the worker, let the executor run to the end, resolve every message;
 	// a response still paused is unpaused (the property's assumption) and the tail is repeated
 	tail := func(sendOK func() string) {
+		c.Labels = append(c.Labels, rlLabel{K: "memfree"})
 		c.Labels = append(c.Labels, rlLabel{K: "release"})
 		c.Labels = append(c.Labels, rlLabel{K: "start"})
 		// the last block's release may hold the executor's FinishTask, so that the outcome of the final
@@ -847,7 +958,7 @@ func tagsOf(c rlCase) []string {
 		has[l.K] = true
 	}
 	var tags []string
-	for _, k := range []string{"new/accept", "new/reject", "new/pause", "new/hookerr", "send/fail", "rcancel", "rupdate", "apause", "acancel", "aupdate", "gate/pause", "gate/err", "gateh", "finish", "armstart", "hold"} {
+	for _, k := range []string{"new/accept", "new/reject", "new/pause", "new/hookerr", "send/fail", "rcancel", "rupdate", "apause", "acancel", "aupdate", "gate/pause", "gate/err", "gateh", "finish", "armstart", "updstall", "memfree", "hold"} {
 		if has[k] {
 			tags = append(tags, "has:"+k)
 		}
@@ -903,6 +1014,10 @@ func run(c *drv.Ctx) error {
 	retried := 0
 	const maxHangs = 3 // after this many cases that end in a hang no further case is scheduled
 	runOne := func(rc rlCase) (r childRes) {
+		// the case about to run, for bin/check to turn a death of this process into a replay
+		if b, err := json.Marshal(map[string]any{"driver": "resplife", "case": rc}); err == nil {
+			_ = os.WriteFile(filepath.Join(c.Out, "inflight.json"), b, 0o644)
+		}
 		r.Steps, r.Entry, r.Hung, r.Why = runCase(rc)
 		if r.Hung && !processDirty {
 			// a wait expired (machine under load?): run the case again; a second expiry is kept and reported
@@ -1015,6 +1130,7 @@ func run(c *drv.Ctx) error {
 		}
 		wg.Wait()
 	}
+	os.Remove(filepath.Join(c.Out, "inflight.json"))
 	notRun := 0
 	for _, r := range cases {
 		if !r.ran {
